@@ -37,7 +37,9 @@ def run_bounded(eng, prop: str, tier: str, repo: str, seed: int, known: list[dic
                 job = dict(f.get("job") or {})
                 with open(os.path.join(ROOT, rpath), "w") as fh:
                     json.dump({"property": prop, "obligation": oid, "bounded_check": spec["name"], "native_job": job,
-                               "script": spec["script"], "detail": f, "reproduced": True}, fh, indent=1, default=str)
+                               "script": spec["script"], "args": spec.get("args", {}), "detail": f, "reproduced": True,
+                               "how_to_replay": f"./check {prop} --replay <this file>  (re-runs native/{spec['script']} on the "
+                                                "current tree and looks for this signature)"}, fh, indent=1, default=str)
                 fails.append({"oid": oid, "known": None, "what": f.get("what", ""), "replay": rpath})
         entry["failures"] = fails
         out.append(entry)
